@@ -154,6 +154,28 @@ impl Code for bool {
     }
 }
 
+/// Read exactly `len` bytes without trusting `len` for the allocation.
+///
+/// The length prefix may come from damaged or misinterpreted data (e.g. a compressed payload decoded
+/// with the wrong mode): allocating it up front can abort the process on an absurd value.
+#[cfg(not(feature = "serde"))]
+fn read_bytes(reader: &mut impl std::io::Read, len: usize) -> Result<Vec<u8>> {
+    use std::io::Read as _;
+
+    const PREALLOCATE_LIMIT: usize = 1 << 20;
+
+    let mut v = Vec::with_capacity(len.min(PREALLOCATE_LIMIT));
+    let read = reader
+        .by_ref()
+        .take(len as u64)
+        .read_to_end(&mut v)
+        .map_err(Error::io_error)?;
+    if read != len {
+        return Err(Error::io_error(std::io::Error::from(std::io::ErrorKind::UnexpectedEof)));
+    }
+    Ok(v)
+}
+
 #[cfg(not(feature = "serde"))]
 impl Code for Vec<u8> {
     fn encode(&self, writer: &mut impl std::io::Write) -> Result<()> {
@@ -161,18 +183,12 @@ impl Code for Vec<u8> {
         writer.write_all(self).map_err(Error::io_error)
     }
 
-    #[expect(clippy::uninit_vec)]
     fn decode(reader: &mut impl std::io::Read) -> Result<Self>
     where
         Self: Sized,
     {
         let len = usize::decode(reader)?;
-        let mut v = Vec::with_capacity(len);
-        unsafe {
-            v.set_len(len);
-        }
-        reader.read_exact(&mut v).map_err(Error::io_error)?;
-        Ok(v)
+        read_bytes(reader, len)
     }
 
     fn estimated_size(&self) -> usize {
@@ -187,15 +203,12 @@ impl Code for String {
         writer.write_all(self.as_bytes()).map_err(Error::io_error)
     }
 
-    #[expect(clippy::uninit_vec)]
     fn decode(reader: &mut impl std::io::Read) -> Result<Self>
     where
         Self: Sized,
     {
         let len = usize::decode(reader)?;
-        let mut v = Vec::with_capacity(len);
-        unsafe { v.set_len(len) };
-        reader.read_exact(&mut v).map_err(Error::io_error)?;
+        let v = read_bytes(reader, len)?;
         String::from_utf8(v)
             .map_err(|e| Error::new(crate::error::ErrorKind::Parse, "failed to parse String").with_source(e))
     }
@@ -212,15 +225,12 @@ impl Code for bytes::Bytes {
         writer.write_all(self).map_err(Error::io_error)
     }
 
-    #[expect(clippy::uninit_vec)]
     fn decode(reader: &mut impl std::io::Read) -> Result<Self>
     where
         Self: Sized,
     {
         let len = usize::decode(reader)?;
-        let mut v = Vec::with_capacity(len);
-        unsafe { v.set_len(len) };
-        reader.read_exact(&mut v).map_err(Error::io_error)?;
+        let v = read_bytes(reader, len)?;
         Ok(bytes::Bytes::from(v))
     }
 
